@@ -24,8 +24,11 @@ def revolute_restart(h, first="RB", axis=2, seed=0):
     k = h.pos("k")
 
     def extra(rp):
-        rp.el = Spring(rp.joint, k, l_ref=0.25, compliance_form=False, name="rot_spring")
-        return [rp.el]
+        from cardillo.force_laws import MaxwellElement
+        # explicit reference angle ZERO (a falsy value that is not None) and an element with a coordinate but no velocity of its own
+        rp.el = Spring(rp.joint, k, l_ref=0.0, compliance_form=False, name="rot_spring")
+        rp.mx = MaxwellElement(rp.joint, 2.0, 1.5, l_ref=0.0, name="maxwell")
+        return [rp.el, rp.mx]
     rp = lib.RevolutePair(h, seed=seed, axis=axis, first=first, extra=extra, angle0=0.5)
     opts = SolverOptions(compute_consistent_initial_conditions=False)
     sysm = rp.sysm
@@ -33,9 +36,19 @@ def revolute_restart(h, first="RB", axis=2, seed=0):
         sysm.assemble(options=opts)
     # restart state: on the joint manifold
     t1, q1, u1, phi1, phid1 = rp.state(prefix="s_", concrete_orientation=True)
+    ld1 = h.real("s_ld")                     # damper elongation of the Maxwell element reached at the restart time
+    q1 = np.concatenate([q1, h.arr([ld1])])
     copy = h.call("deepcopy + set_new_initial_state succeed", _restart, sysm, q1, u1, t1, opts)
     if copy is None:
         return
+    # (rigid bodies store the normalised quaternion: compared through the model functions below; coordinates of force elements are taken as given)
+    from cardillo.discrete import RigidBody
+    for c in copy.contributions:
+        if hasattr(c, "my_qDOF") and len(getattr(c, "my_qDOF", [])) and not isinstance(c, RigidBody):
+            h.eq(f"restart state handed to {c.name}", np.atleast_1d(c.q0), q1[c.my_qDOF])
+            h.eq(f"system initial state carries the restart coordinates of {c.name}", copy.q0[c.my_qDOF], q1[c.my_qDOF])
+    h.eq("explicit reference angle of the spring unchanged by re-initialisation", copy.contributions_map["rot_spring"].l_ref, 0.0)
+    h.eq("explicit reference angle of the Maxwell element unchanged by re-initialisation", copy.contributions_map["maxwell"].l_ref, 0.0)
     j0 = rp.joint
     j1 = copy.contributions_map["rev"]
     e0, e1 = rp.el, copy.contributions_map["rot_spring"]
